@@ -45,7 +45,7 @@ enum Spec {
     /// same static word in every locale
     Same(&'static str),
     Param,
-    Optional,
+    Optional(&'static str),
     Splat,
 }
 
@@ -71,10 +71,13 @@ fn shapes() -> Vec<Vec<Spec>> {
         vec![Spec::Same("x")],
         vec![Spec::W("about")],
         vec![Spec::W("about"), Spec::Param],
-        vec![Spec::W("users"), Spec::Optional, Spec::W("about")],
+        vec![Spec::W("users"), Spec::Optional("tab"), Spec::W("about")],
         vec![Spec::W("files"), Spec::Splat],
         vec![Spec::Param, Spec::W("users")],
         vec![Spec::Same("apple"), Spec::W("lang")],
+        // two optionals in a row; an optional after a param
+        vec![Spec::Same("apple"), Spec::Optional("a"), Spec::Optional("b"), Spec::W("about")],
+        vec![Spec::Param, Spec::Optional("tab"), Spec::W("lang")],
     ]
 }
 
@@ -86,7 +89,7 @@ fn route_segments(shape: &[Spec], l: HL) -> Vec<PathSegment> {
             Spec::W(w) => PathSegment::Static(word(l, w).into()),
             Spec::Same(w) => PathSegment::Static((*w).into()),
             Spec::Param => PathSegment::Param("id".into()),
-            Spec::Optional => PathSegment::OptionalParam("tab".into()),
+            Spec::Optional(n) => PathSegment::OptionalParam((*n).into()),
             Spec::Splat => PathSegment::Splat("rest".into()),
         });
     }
@@ -106,16 +109,18 @@ fn table(locales: &[HL], with_routes: bool) -> verif::Segments<HL> {
 /// a page: a route shape with concrete parameter values, or a path no route knows
 #[derive(Clone, Debug, PartialEq)]
 enum Page {
-    Inst { shape: usize, params: Vec<&'static str>, optional_present: bool },
+    /// `n_opt`: how many optional params carry a value (a value always binds the first free optional)
+    Inst { shape: usize, params: Vec<&'static str>, n_opt: usize },
     Raw(Vec<&'static str>),
 }
 
 fn page_segments(p: &Page, l: HL, localized: bool) -> Vec<String> {
     match p {
         Page::Raw(v) => v.iter().map(|s| s.to_string()).collect(),
-        Page::Inst { shape, params, optional_present } => {
+        Page::Inst { shape, params, n_opt } => {
             let mut out = vec![];
             let mut pi = 0;
+            let mut opt_seen = 0;
             for s in &shapes()[*shape] {
                 match s {
                     Spec::W(w) => out.push(if localized { word(l, w) } else { word(HL::default(), w) }),
@@ -128,8 +133,9 @@ fn page_segments(p: &Page, l: HL, localized: bool) -> Vec<String> {
                         out.push(params[pi % params.len()].to_string());
                         pi += 1;
                     }
-                    Spec::Optional => {
-                        if *optional_present {
+                    Spec::Optional(_) => {
+                        opt_seen += 1;
+                        if opt_seen <= *n_opt {
                             out.push(params[pi % params.len()].to_string());
                             pi += 1;
                         }
@@ -150,12 +156,12 @@ fn pages() -> Vec<Page> {
     let mut v = vec![Page::Raw(vec![]), Page::Raw(vec!["nomatch"]), Page::Raw(vec!["english", "course"]), Page::Raw(vec!["french-fries", "42"]), Page::Raw(vec!["eng1", "fr-CAN"])];
     let param_sets: Vec<Vec<&'static str>> = vec![vec!["42"], vec!["fr"], vec!["english", "x"], vec!["en", "fr-CA"]];
     for (si, sh) in shapes().iter().enumerate() {
-        let has_opt = sh.contains(&Spec::Optional);
-        let needs_params = sh.iter().any(|s| matches!(s, Spec::Param | Spec::Optional | Spec::Splat));
+        let n_optionals = sh.iter().filter(|s| matches!(s, Spec::Optional(_))).count();
+        let needs_params = sh.iter().any(|s| matches!(s, Spec::Param | Spec::Optional(_) | Spec::Splat));
         let sets: Vec<Vec<&'static str>> = if needs_params { param_sets.clone() } else { vec![vec!["-"]] };
         for ps in sets {
-            for op in if has_opt { vec![false, true] } else { vec![false] } {
-                v.push(Page::Inst { shape: si, params: ps.clone(), optional_present: op });
+            for n_opt in 0..=n_optionals {
+                v.push(Page::Inst { shape: si, params: ps.clone(), n_opt });
             }
         }
     }
@@ -233,7 +239,13 @@ pub fn run(tier: Tier) -> i32 {
                     let mut segs: Vec<&str> = if under_base { base_segs(base) } else { vec!["other"] };
                     segs.extend(rel.iter());
                     let path = format!("/{}{}", segs.join("/"), if segs.is_empty() { "" } else { trailing });
-                    let got = verif::get_locale_from_path::<HL>(&path, base);
+                    let got = match std::panic::catch_unwind(|| verif::get_locale_from_path::<HL>(&path, base)) {
+                        Ok(g) => g,
+                        Err(e) => {
+                            rep.violation(format!("C14/locale-from-path: PANIC {} :: base {base:?} path {path:?}", vmodel::par::take_panic_message(e)), json!({}));
+                            continue;
+                        }
+                    };
                     let want = oracle_locale_from_path(&path, base, cfg);
                     n += 1;
                     *local.entry(format!("{:?}", want.map(|l| l.as_str()))).or_insert(0) += 1;
@@ -335,7 +347,16 @@ pub fn run(tier: Tier) -> i32 {
                                 }
                                 for next in cfg.iter().copied().filter(|l| *l != cur) {
                                     let (p, s, hs) = split_url(&url);
-                                    let got = verif::get_new_path::<HL>(&p, &s, &hs, base, next, Some(cur), segs.clone());
+                                    let got = match std::panic::catch_unwind(std::panic::AssertUnwindSafe(|| verif::get_new_path::<HL>(&p, &s, &hs, base, next, Some(cur), segs.clone()))) {
+                                        Ok(g) => g,
+                                        Err(e) => {
+                                            rep.violation(
+                                                format!("C14/switch: PANIC {} :: locales {:?} base {base:?} routes={with_routes} url {url:?} switching {} -> {}", vmodel::par::take_panic_message(e), cfg.iter().map(|l| l.as_str()).collect::<Vec<_>>(), cur.as_str(), next.as_str()),
+                                                json!({"url": url}),
+                                            );
+                                            continue;
+                                        }
+                                    };
                                     trans += 1;
                                     let want = expected_url(base, page, next, with_routes, q, h);
                                     if norm(&got) != norm(&want) {
@@ -403,7 +424,13 @@ pub fn run(tier: Tier) -> i32 {
     par_for(configs.len(), |_, ci| {
         let cfg = configs[ci];
         CONFIG.set(cfg);
-        let f = with_owner(|| crate::routes::check_config(cfg, "/", tier == Tier::Thorough));
+        let f = match std::panic::catch_unwind(|| with_owner(|| crate::routes::check_config(cfg, "/", tier == Tier::Thorough))) {
+            Ok(f) => f,
+            Err(e) => {
+                rep.violation(format!("C14/routes: PANIC {} :: locales {:?}", vmodel::par::take_panic_message(e), cfg.iter().map(|l| l.as_str()).collect::<Vec<_>>()), json!({}));
+                return;
+            }
+        };
         for pr in f.problems.iter().take(25) {
             rep.violation(format!("C14/routes: {pr}"), json!({}));
         }
@@ -418,7 +445,7 @@ pub fn run(tier: Tier) -> i32 {
     rep.sample(json!({"locales": ["en", "fr"], "base": "/", "url": "/english/course", "switch": "en -> fr", "expected": "/fr/english/course"}));
     rep.sample(json!({"locales": ["en", "fr", "fr-CA"], "base": "app", "url": "/app/fr-CA/usagers/42/apropos-ca?a=1&b=fr#fr", "switch": "fr-CA -> fr", "expected": "/app/fr/utilisateurs/42/a-propos?a=1&b=fr#fr"}));
     let mut cov = serde_json::Map::new();
-    cov.insert("rule".into(), json!(format!("locale sets {sets:?} (default first; names that are prefixes of each other and of path words) x base paths {BASES:?}; (A) get_locale_from_path on every path of <= 2 (thorough 3) segments over {WORDS:?}, under the base and not, with and without trailing slash, against a whole-segment oracle; (B) explicit-state exploration: state = (URL, locale); from the URL of every page (7 route shapes with static / param / optional / splat / localized segments instantiated with 4 parameter sets, optional present or not, plus 5 paths no route knows) in every locale, with and without query and fragment, with and without a route table, every sequence of <= {depth} locale switches, each step calling the real get_new_path with the real previous locale; invariants per transition: result == base + new prefix (none for the default) + localized segments + untouched other segments, query and fragment (so A->B->A returns the original URL), the locale read back from the new URL is the one switched to, and the real route objects match the URL before and after as the same route with the same parameters under the new prefix; with a route table the segment tables are the ones the real <I18nRoute> stored (hook stored_segments); (C) the real <I18nRoute> built natively with i18n_path! segments (home, static, localized, param, optional, splat): generate_routes() == for every locale the plain leptos_router table in that locale's words under the locale prefix, plus the default's table unprefixed; match_nested() on every path of <= 3 (4 after a locale name) segments over locale names, localized words of every locale, glued forms (locale name + more characters in the same segment), truncated and upper-cased names, with and without trailing slash: the answer must be the plain leptos_router answer for the locale whose name equals the first segment exactly, or the default locale's answer for the whole path, or no match when neither exists")));
+    cov.insert("rule".into(), json!(format!("locale sets {sets:?} (default first; names that are prefixes of each other and of path words) x base paths {BASES:?}; (A) get_locale_from_path on every path of <= 2 (thorough 3) segments over {WORDS:?}, under the base and not, with and without trailing slash, against a whole-segment oracle; (B) explicit-state exploration: state = (URL, locale); from the URL of every page (10 route shapes with static / param / optional (also two in a row, and after a param) / splat / localized segments and the home route instantiated with 4 parameter sets, optional present or not, plus 5 paths no route knows) in every locale, with and without query and fragment, with and without a route table, every sequence of <= {depth} locale switches, each step calling the real get_new_path with the real previous locale; invariants per transition: result == base + new prefix (none for the default) + localized segments + untouched other segments, query and fragment (so A->B->A returns the original URL), the locale read back from the new URL is the one switched to, and the real route objects match the URL before and after as the same route with the same parameters under the new prefix; with a route table the segment tables are the ones the real <I18nRoute> stored (hook stored_segments); (C) the real <I18nRoute> built natively with i18n_path! segments (home, static, localized, param, optional, splat): generate_routes() == for every locale the plain leptos_router table in that locale's words under the locale prefix, plus the default's table unprefixed; match_nested() on every path of <= 3 (4 after a locale name) segments over locale names, localized words of every locale, glued forms (locale name + more characters in the same segment), truncated and upper-cased names, with and without trailing slash: the answer must be the plain leptos_router answer for the locale whose name equals the first segment exactly, or the default locale's answer for the whole path, or no match when neither exists")));
     cov.insert("exhaustive".into(), json!(true));
     cov.insert("states".into(), json!(n_states.max(1)));
     cov.insert("depth".into(), json!(depth));
